@@ -15,7 +15,7 @@ theorem at_log {s : Sys} {i : Nat} {st : NState} (hi : s.node i = some st) :
     At s (.log i) st.raft.raftLog.abs := ⟨st, hi, rfl⟩
 
 /-- two logs of the history that hold entries of the same term at `q` are equal up to `q` -/
-theorem logs_eq_below (H : Hyp2 cfg c0 h) {n n' : Nat} {s s' : Sys} (hn : h[n]? = some s)
+theorem logs_eq_below (H : Hyp2w cfg c0 h) {n n' : Nat} {s s' : Sys} (hn : h[n]? = some s)
     (hn' : h[n']? = some s') {i j : Nat} {st st' : NState} (hi : s.node i = some st)
     (hj : s'.node j = some st') {q : Nat} {e1 e2 : Entry}
     (h1 : st.raft.raftLog.abs.entryAt q = some e1) (h2 : st'.raft.raftLog.abs.entryAt q = some e2)
@@ -26,7 +26,7 @@ theorem logs_eq_below (H : Hyp2 cfg c0 h) {n n' : Nat} {s s' : Sys} (hn : h[n]? 
 
 /-- the logs of the leader of term `t` at two points of the history hold the same entry at every
 index both reach -/
-theorem leader_logs_eq (H : Hyp2 cfg c0 h) {n n' : Nat} {s s' : Sys} (hn : h[n]? = some s)
+theorem leader_logs_eq (H : Hyp2w cfg c0 h) {n n' : Nat} {s s' : Sys} (hn : h[n]? = some s)
     (hn' : h[n']? = some s') {l l' t : Nat} {st st' : NState} (hk : s.node l = some st)
     (hk' : s'.node l' = some st') (hs : st.raft.state = .leader) (hs' : st'.raft.state = .leader)
     (ht : st.raft.term = t) (ht' : st'.raft.term = t) {k : Nat}
@@ -48,7 +48,7 @@ theorem leader_logs_eq (H : Hyp2 cfg c0 h) {n n' : Nat} {s s' : Sys} (hn : h[n]?
       rw [he', hkept k e' he' (by rw [o1.snapIdx]; omega)]
 
 /-- what a commit event gives: the committing leader's state after the step -/
-theorem Ev.facts (H : Hyp2 cfg c0 h) {E : Ev} (hE : E.ok h) :
+theorem Ev.facts (H : Hyp2w cfg c0 h) {E : Ev} (hE : E.ok h) :
     ∃ a b sta stb, h[E.nE]? = some a ∧ h[E.nE + 1]? = some b ∧ a.node E.l = some sta ∧
       b.node E.l = some stb ∧ stb.raft.state = .leader ∧ stb.raft.term = E.t ∧
       E.c = stb.raft.raftLog.committed ∧ E.gE = stb.raft.raftLog.abs ∧
